@@ -4,6 +4,7 @@ from .. import soups, px, contexts, monitor, docgrammar
 from ..alphabets import SIG, SIG_SMALL, EVERYTYPE_TOKENS, STRUCTURAL
 from ..engine import exc_key, exc_detail, ddmin, hyp_run, Result
 from ..models import minitok
+from ..contexts import EXTRA_TOKENS
 from .c20 import model as linecol_model
 
 ID = 'C05'
@@ -25,7 +26,7 @@ ASSUMPTIONS = [
 ]
 NSHARDS = 16
 ALPHA_EVERY = SIG_SMALL + EVERYTYPE_TOKENS
-ALPHAS = {'SIG': SIG, 'EVERY': ALPHA_EVERY, 'SMALL': SIG_SMALL}
+ALPHAS = {'SIG': SIG, 'EVERY': ALPHA_EVERY, 'SMALL': SIG_SMALL, 'EXTRA': EXTRA_TOKENS}
 FAULTS = ['{', '}', '$', '\\(', '\\)', '\\[', '\\]', '\\begin{x}', '\\end{x}',
           '\\begin{itemize}', '\\end{itemize}']
 
@@ -47,6 +48,7 @@ def plan(tier, seed):
     shards += [('soup', 'every', 'EVERY', LE, k) for k in range(NSHARDS)]
     shards += [('soup', 'every-nounknown', 'EVERY', 2 if tier == 'quick' else 3, k)
                for k in range(NSHARDS)]
+    shards += [('soup', 'extra', 'EXTRA', 3 if tier == 'quick' else 4, k) for k in range(NSHARDS)]
     shards += [('inject', ndocs // NSHARDS, seed * 1000 + k) for k in range(NSHARDS)]
     return {'shards': shards,
             'bounds': {'soup_len_default': L, 'soup_len_everytype': LE, 'documents': ndocs,
@@ -142,7 +144,7 @@ def run_shard(shard, res):
         for toks in soups.enum_tokens(ALPHAS[alpha], L, k, NSHARDS):
             case = {'kind': 'soup', 'ctx': ctxname, 'tokens': list(toks)}
             check_soup(''.join(toks), ctxname, res, case)
-            if any(t in STRUCTURAL or t in EVERYTYPE_TOKENS for t in toks):
+            if any(t in STRUCTURAL or t in EVERYTYPE_TOKENS or t in EXTRA_TOKENS for t in toks):
                 res.nontriv_distinct()
         res.exhaustive = True
     else:
